@@ -319,6 +319,7 @@ func runC10(c *Ctx) {
 	c.omoList("C10")
 	c.omoObj("C10")
 	c.derivedCorners("C10")
+	c.overriding("C10")
 	// keys that contain a sigil next to a key that is their prefix: the path always takes the short key first,
 	// whatever the iteration order of the map (repeated, since Go randomises it)
 	for rep := 0; rep < 16; rep++ {
@@ -659,4 +660,65 @@ func passesThrough(root any, path string, target any) bool {
 		cur = next
 	}
 	return reaches(target, cur)
+}
+
+// ---------------------------------------------------------------- overriding derived structures
+
+// A derived structure may override methods (README, "Derived Structures"); the library reaches the registered outer
+// value through Ego().  Step-by-step navigation by the caller uses the overriding methods, so a tree-form read that
+// ends in such a structure has to use them too.  The model has no notion of overriding: monitored here, on the
+// implementation alone.
+type overList struct{ at.List }
+
+func (o *overList) Get(i int) any        { return "over#" + strconv.Itoa(i) }
+func (o *overList) TypeOf(i int) at.Type { return at.TypeString }
+
+type overObj struct{ at.Object }
+
+func (o *overObj) Get(k string) any        { return "over." + k }
+func (o *overObj) TypeOf(k string) at.Type { return at.TypeString }
+
+func (c *Ctx) overriding(prop string) {
+	m := c.M
+	m.Case("overriding-derived")
+	ol := &overList{List: at.NewList(1, 2, 3)}
+	ol.Init(ol)
+	oo := &overObj{Object: at.NewObject("a", 1, "b", 2)}
+	oo.Init(oo)
+	holder := at.NewObject("l", ol, "o", oo, "plain", at.NewList(ol, oo))
+	safe := func(f func() any) (res any) {
+		defer func() {
+			if r := recover(); r != nil {
+				res = fmt.Sprintf("panic: %v", r)
+			}
+		}()
+		return f()
+	}
+	type probe struct {
+		what      string
+		tf, steps func() any
+	}
+	probes := []probe{
+		{`ol.GetTF("#1") vs ol.Get(1)`, func() any { return ol.GetTF("#1") }, func() any { return ol.Get(1) }},
+		{`oo.GetTF(".a") vs oo.Get("a")`, func() any { return oo.GetTF(".a") }, func() any { return oo.Get("a") }},
+		{`holder.GetTF(".l#2") vs holder.GetList("l").Get(2)`, func() any { return holder.GetTF(".l#2") }, func() any { return holder.GetList("l").Get(2) }},
+		{`holder.GetTF(".o.b") vs holder.GetObject("o").Get("b")`, func() any { return holder.GetTF(".o.b") }, func() any { return holder.GetObject("o").Get("b") }},
+		{`holder.GetTF(".plain#0#0") vs holder.GetList("plain").GetList(0).Get(0)`, func() any { return holder.GetTF(".plain#0#0") }, func() any { return holder.GetList("plain").GetList(0).Get(0) }},
+		{`holder.GetTF(".plain#1.a") vs ...GetObject(1).Get("a")`, func() any { return holder.GetTF(".plain#1.a") }, func() any { return holder.GetList("plain").GetObject(1).Get("a") }},
+		{`ol.TypeOfTF("#1") vs ol.TypeOf(1)`, func() any { return ol.TypeOfTF("#1") }, func() any { return ol.TypeOf(1) }},
+		{`oo.TypeOfTF(".a") vs oo.TypeOf("a")`, func() any { return oo.TypeOfTF(".a") }, func() any { return oo.TypeOf("a") }},
+		{`holder.TypeOfTF(".l#0") vs holder.GetList("l").TypeOf(0)`, func() any { return holder.TypeOfTF(".l#0") }, func() any { return holder.GetList("l").TypeOf(0) }},
+		{`holder.TypeOfTF(".o.a") vs holder.GetObject("o").TypeOf("a")`, func() any { return holder.TypeOfTF(".o.a") }, func() any { return holder.GetObject("o").TypeOf("a") }},
+	}
+	for _, p := range probes {
+		got, want := safe(p.tf), safe(p.steps)
+		if got != want {
+			m.Alarm(prop, fmt.Sprintf("a derived structure overriding Get/TypeOf: %s: tree form gives %v, step by step gives %v", p.what, got, want))
+		}
+	}
+	// identity of the stored overriding value through every read
+	if safe(func() any { return holder.GetTF(".l") }) != any(ol) || safe(func() any { return holder.GetTF(".plain#1") }) != any(oo) {
+		m.Alarm(prop, "a stored overriding derived structure is not handed back identically by GetTF")
+	}
+	c.St.Eval("overriding:"+prop, true)
 }
